@@ -180,6 +180,92 @@ fn library_history(ctx: &Ctx, hist: &History) {
     }
 }
 
+
+/// "Within one file, chunk i is sealed exactly once under nonce i" must also hold for files written while the plaintext
+/// source or the ciphertext sink MISBEHAVED TRANSIENTLY: a read or write that was interrupted (and, if the call still
+/// returned Ok, retried) at every call index. Whatever the encryptor returns, every record it emitted must open under
+/// nonce = its index and no index may occur twice; an Ok run must give the complete plaintext.
+fn nonce_audit_under_transient_faults(ctx: &Ctx) {
+    use crate::ioscript::Fault;
+    let mut rng = Rng::fork(ctx.seed, "C07-faults");
+    // small scope through the hooked chunk loop (chunk sizes 2 and 3), and production size through key_encrypt
+    for c in [2u32, 3] {
+        for len in [0usize, 1, 5, 7, 9] {
+            let pt = rng.bytes(len);
+            let key = rng.arr32();
+            let base = chunks_encrypt_run(&pt, &Io::plain(), &key, &[], c);
+            let (reads, writes) = (base.log.count(crate::ioscript::Op::Read), base.log.count(crate::ioscript::Op::Write));
+            for side in 0..2 {
+                for k in 0..(if side == 0 { reads } else { writes }) {
+                    let mut io = Io::plain();
+                    if side == 0 {
+                        io.rfaults = vec![(k, Fault::Kind(std::io::ErrorKind::Interrupted))];
+                    } else {
+                        io.wfaults = vec![(k, Fault::Kind(std::io::ErrorKind::Interrupted))];
+                    }
+                    let e = chunks_encrypt_run(&pt, &io, &key, &[], c);
+                    ctx.eval();
+                    let body = refspec::decode_body(&e.out, 0, &key, &[], c as usize);
+                    let case = || json!({"chunk_size": c, "len": len, "interrupted": if side == 0 { "read" } else { "write" }, "at_call": k, "result": e.outcome.class(), "written": hex(&e.out)});
+                    // every record that was written completely must be the record of ITS index under nonce = index:
+                    // the reference opens records in order with nonce = position, so a repeated or skipped nonce stops it early
+                    let recs_written = count_complete_records(&e.out, c as usize);
+                    if body.chunks.len() < recs_written {
+                        ctx.violation("C07:nonce-audit:record-written-under-another-nonce-than-its-index:after-a-transient-fault", case());
+                        continue;
+                    }
+                    if e.outcome.is_ok() && (!body.complete() || body.plaintext() != pt) {
+                        ctx.violation("C07:nonce-audit:chunk-does-not-open-under-its-index:after-a-transient-fault", case());
+                        continue;
+                    }
+                    ctx.seen("nonce audit under a transient fault: every emitted record opens under nonce = index");
+                    ctx.distinct(&format!("faultaudit|{}|{}|{}|{}", c, len, side, k));
+                }
+            }
+        }
+    }
+    let (s, r) = (rng.arr32(), rng.arr32());
+    let (s_pub, r_pub) = (refspec::pubkey_of(&s), refspec::pubkey_of(&r));
+    let big = rng.bytes(65536 * 3 + 17);
+    for k in 0..6usize {
+        let mut io = Io::plain();
+        io.rfaults = vec![(k, Fault::Kind(std::io::ErrorKind::Interrupted))];
+        let e = key_encrypt_run(&big, &io, &KeyEnc { s_priv: &s, s_pub: &s_pub, r_pub: &r_pub, e_priv: None, payload: None });
+        ctx.eval();
+        let case = || json!({"len": big.len(), "interrupted_read_call": k, "result": e.outcome.class(), "bytes_written": e.out.len()});
+        if e.out.len() < 132 {
+            ctx.seen("nonce audit under a transient fault: nothing beyond the header was written");
+            continue;
+        }
+        match refspec::decode_key_file(&e.out, &r, &r_pub) {
+            Ok(d) => {
+                let recs_written = (e.out.len() - 132) / (65536 + 32);
+                if d.body.chunks.len() < recs_written.min(3) || (e.outcome.is_ok() && (!d.body.complete() || d.body.plaintext() != big)) {
+                    ctx.violation("C07:nonce-audit:chunk-does-not-open-under-its-index:after-a-transient-fault:key_encrypt", case());
+                } else {
+                    ctx.seen("nonce audit under a transient fault: every emitted record opens under nonce = index");
+                    ctx.distinct(&format!("faultaudit|prod|{}", k));
+                }
+            }
+            Err(why) => ctx.violation("C07:library:reference-cannot-open-file", json!({"why": why, "interrupted_read_call": k})),
+        }
+    }
+}
+
+/// Number of complete records (16-byte header + body + 16-byte tag, body length from the header) at the start of `b`.
+fn count_complete_records(b: &[u8], max_chunk: usize) -> usize {
+    let (mut off, mut n) = (0usize, 0usize);
+    while off + 16 <= b.len() {
+        let len = u32::from_be_bytes([b[off + 12], b[off + 13], b[off + 14], b[off + 15]]) as usize;
+        if len > max_chunk || off + 32 + len > b.len() {
+            break;
+        }
+        off += 32 + len;
+        n += 1;
+    }
+    n
+}
+
 fn cli_history(ctx: &Ctx, hist: &History) {
     let n = ctx.tier.pick(30, 800);
     let mut rng = Rng::fork(ctx.seed, "C07-cli");
@@ -315,6 +401,7 @@ pub fn run(ctx: &Ctx) {
     ctx.assume("uniqueness over N samples only exposes sources with roughly < 2*log2(N) bits of entropy; entropy quality beyond that is assumed of getrandom");
     let hist = History::new();
     library_history(ctx, &hist);
+    nonce_audit_under_transient_faults(ctx);
     if !crate::lib_only() {
         cli_history(ctx, &hist);
     }
@@ -324,6 +411,7 @@ pub fn run(ctx: &Ctx) {
     }
     ctx.require("values recorded: ephemeral public key", 200);
     ctx.require("values recorded: payload key", 200);
+    ctx.require("nonce audit under a transient fault: every emitted record opens under nonce = index", 40);
     ctx.require("values recorded: locked-key salt", 50);
     ctx.require("values recorded: password-file salt", 20);
     ctx.require("chunks opened under nonce = index", 60_000);
